@@ -658,6 +658,12 @@ func appendChainParams(fn *ssa.Function, v ssa.Value) ([]int, bool) {
 		if isNilConst(x) {
 			return true
 		}
+		// an empty buffer with preallocated capacity: make([]byte, 0, n)
+		if mk, ok := x.(*ssa.MakeSlice); ok {
+			if l, isC := constInt(mk.Len); isC && l == 0 {
+				return true
+			}
+		}
 		c := isBuiltinCall(x, "append")
 		if c == nil {
 			return false
